@@ -237,13 +237,8 @@ func (c *chCtx) inline(fd *ast.FuncDecl, dst, src int, at ast.Node) {
 	if recv == "" {
 		c.fail(at, "callee %s does not have the shape func (z *T) F(x *T) *T", fd.Name.Name)
 	}
-	// the callee's parameter and receiver are the caller's registers; when they are the same register the callee's
-	// reads of x after a write of z would see the new value: copy the argument first
-	if dst == src {
-		t := c.alloc("arg", at)
-		c.emit("set", t, src, 0)
-		src = t
-	}
+	// the callee's parameter and receiver ARE the caller's registers (Go pointers): when the caller passes the same variable
+	// twice, the callee's x and z are one register
 	c.regs[c.prefix+par] = src
 	c.regs[c.prefix+recv] = dst
 	c.block(fd.Body.List, true)
@@ -439,7 +434,8 @@ func literalLoop(s *ast.ForStmt) (lo, hi int, ok bool) {
 	return lo, hi, true
 }
 
-func translateChain(level, where string, fset *token.FileSet, fd *ast.FuncDecl, funcs map[string]*ast.FuncDecl) *chain {
+// aliased: the call `v.F(&v)` (receiver and argument are the same variable): one register for both
+func translateChain(level, where string, fset *token.FileSet, fd *ast.FuncDecl, funcs map[string]*ast.FuncDecl, aliased bool) *chain {
 	c := &chCtx{level: level, where: where + "." + fd.Name.Name, fset: fset, funcs: funcs, regs: map[string]int{}}
 	recv, par := chainSig(fd)
 	if recv == "" {
@@ -449,7 +445,12 @@ func translateChain(level, where string, fset *token.FileSet, fd *ast.FuncDecl, 
 	if recv == par {
 		c.fail(fd, "receiver and parameter have the same name")
 	}
-	c.alloc(recv, fd)
+	if aliased {
+		c.regs[recv] = 0
+		c.names[0] = par + "=" + recv
+	} else {
+		c.alloc(recv, fd)
+	}
 	// curve level: `p.mulWindowed(q, &xGen); return p` is not a chain; record which constant it multiplies by
 	if level == "curve" && len(fd.Body.List) == 2 {
 		if es, ok := fd.Body.List[0].(*ast.ExprStmt); ok {
@@ -605,7 +606,7 @@ func runFieldChains() {
 			if !strings.HasPrefix(fd.Name.Name, "expBy") {
 				die("chains: %s: unexpected method %s in element_exp.go (only expBy* chains are expected there)", d, fd.Name.Name)
 			}
-			ch := translateChain("field", d, fset, fd, nil)
+			ch := translateChain("field", d, fset, fd, nil, false)
 			fmt.Fprintf(&b, "/-- %s/element_exp.go `%s`; registers: %s -/\ndef %s : Chain :=\n  %s\n", d, ch.name, strings.Join(ch.regNames, " "), ch.name, ch.lean("    "))
 			table = append(table, fmt.Sprintf("(\"%s\", \"%s\", %s.%s)", pkg, ch.name, pkg, ch.name))
 			found++
@@ -631,5 +632,72 @@ func runChains() {
 
 var _ = sort.Strings
 
-func runTowerChains() {}
+// ---- tower level
+
+var towerChainFiles = []struct{ curve, file string }{
+	{"bn254", "e12_pairing.go"}, {"bls12-377", "e12_pairing.go"}, {"bls12-381", "e12_pairing.go"},
+	{"bls24-315", "e24_pairing.go"}, {"bls24-317", "e24_pairing.go"}, {"bw6-633", "e6_pairing.go"}, {"bw6-761", "e6_pairing.go"},
+}
+
+const nSquareText = `{ for i := 0; i < n; i++ { z.CyclotomicSquare(z) } }`
+const nSquareCompressedText = `{ for i := 0; i < n; i++ { z.CyclotomicSquareCompressed(z) } }`
+
+var towerChainRe = regexp.MustCompile(`^Exp[tc]`)
+
+func runTowerChains() {
+	var b strings.Builder
+	fmt.Fprintf(&b, chainsHeader, "Cyclotomic exponentiation chains (Expt*, Expc*) of ecc/<curve>/internal/fptower/e{6,12,24}_pairing.go.\n   `<F>` is the call z.F(x) with distinct variables, `<F>_inplace` the call v.F(&v) (one register for receiver and argument).\n   nSquare / nSquareCompressed are loops of CyclotomicSquare / CyclotomicSquareCompressed (their text is compared by the translator).")
+	b.WriteString("namespace Tower\n\n")
+	var table []string
+	n := 0
+	for _, tf := range towerChainFiles {
+		dir := filepath.Join("ecc", tf.curve, "internal", "fptower")
+		fset, f := parseChainFile(filepath.Join(repo, dir, tf.file))
+		funcs := map[string]*ast.FuncDecl{}
+		var order []string
+		for _, dc := range f.Decls {
+			fd, ok := dc.(*ast.FuncDecl)
+			if !ok || fd.Recv == nil || fd.Body == nil {
+				continue
+			}
+			switch fd.Name.Name {
+			case "nSquare":
+				if t := bodyText(fset, fd); t != nSquareText {
+					die("chains: %s: nSquare is not n times CyclotomicSquare: %s", dir, t)
+				}
+			case "nSquareCompressed":
+				if t := bodyText(fset, fd); t != nSquareCompressedText {
+					die("chains: %s: nSquareCompressed is not n times CyclotomicSquareCompressed: %s", dir, t)
+				}
+			default:
+				if towerChainRe.MatchString(fd.Name.Name) {
+					funcs[fd.Name.Name] = fd
+					order = append(order, fd.Name.Name)
+				}
+			}
+		}
+		if len(order) == 0 {
+			die("chains: %s/%s has no Expt* chain", dir, tf.file)
+		}
+		pkg := strings.ReplaceAll(tf.curve, "-", "_")
+		fmt.Fprintf(&b, "namespace %s\n", pkg)
+		for _, nm := range order {
+			for _, al := range []bool{false, true} {
+				ch := translateChain("tower", dir, fset, funcs[nm], funcs, al)
+				name := ch.name
+				if al {
+					name += "_inplace"
+				}
+				fmt.Fprintf(&b, "/-- %s/%s `%s`%s; registers: %s -/\ndef %s : Chain :=\n  %s\n", dir, tf.file, ch.name, map[bool]string{false: "", true: " called in place"}[al], strings.Join(ch.regNames, " "), name, ch.lean("    "))
+				table = append(table, fmt.Sprintf("(\"%s\", \"%s\", %s.%s)", pkg, name, pkg, name))
+				n++
+			}
+		}
+		fmt.Fprintf(&b, "end %s\n\n", pkg)
+	}
+	fmt.Fprintf(&b, "/-- every translated tower chain: (curve, function, chain) -/\ndef towerChains : List (String × String × Chain) := [\n  %s]\n\nend Tower\nend GV.Gen.Chains\n", strings.Join(table, ",\n  "))
+	writeFile("Chains/Tower.lean", b.String())
+	fmt.Fprintf(os.Stderr, "gvgoslp: chains: %d tower chains (incl. in-place variants)\n", n)
+}
+
 func runCurveChains() {}
